@@ -387,7 +387,7 @@ func checkC10(w *World) {
 				return
 			}
 			n3++
-			w.check(P, "R10.3", fmt.Sprintf("%s of an existing %s list into another list", b.Name(), fromList), c.Pos(), false, "cursor objects of another element's "+fromList+" list are copied into a new list: the same node object then sits in two elements' lists, its Parent() is the old owner and any later write to it affects both")
+			w.check(P, "R10.3", fmt.Sprintf("elements of an existing %s list put into another list", fromList), c.Pos(), false, "cursor objects of another element's "+fromList+" list are copied into a new list: the same node object then sits in two elements' lists, its Parent() is the old owner and any later write to it affects both")
 		})
 	})
 	if n3 == 0 {
